@@ -22,7 +22,7 @@ package message
 //@ func StreamInterface.WriteFrame (ctx, data, isEOM) (err)
 //@   requires size: len(data) <= 1048576
 //@   props C01 C09
-//@   assigns @ifaceWrite, ifaceobj(self, "*stream.Stream"), when(typeis(self, "*stream.Stream"), elems(unbox(self, "*stream.Stream").frameBuf))
+//@   assigns @ifaceWrite, ifaceobj(self, "*stream.Stream")
 //@   ensures written: err == nil ==> wrCount == old(wrCount) + 1 && wrLast[0] == ite(isEOM, 1, 0)
 //@   ensures plain_payload: err == nil && !(strmEncrypting && strmKeyed) ==> len(wrLast) == 5 + len(data) && forall i :: 0 <= i && i < len(data) ==> wrLast[5+i] == old(data[i])
 //@   ensures sealed: err == nil && strmEncrypting && strmKeyed ==> sealCount == old(sealCount) + 1 && sealPT == old(str(data))
@@ -45,7 +45,7 @@ package message
 
 //@ assignset msgBuf = m.buffer.buf, m.buffer.off, m.buffer.lastRead, elems(m.buffer.buf)
 //@ assignset msgRead = m.isEOM, m.finished, @msgBuf, @ifaceRead, ifaceobj(m.stream, "*stream.Stream")
-//@ assignset msgWrite = @msgBuf, @ifaceWrite, ifaceobj(m.stream, "*stream.Stream"), when(typeis(m.stream, "*stream.Stream"), elems(unbox(m.stream, "*stream.Stream").frameBuf))
+//@ assignset msgWrite = @msgBuf, @ifaceWrite, ifaceobj(m.stream, "*stream.Stream")
 
 //@ func (*Message).ensureData
 //@   props C01 C02 C13 C14
@@ -56,11 +56,248 @@ package message
 //@   loop 1 invariant proportional: viewLen(m) - old(viewLen(m)) <= rdTotal - old(rdTotal)
 //@   loop 1 invariant idle: old(viewLen(m)) >= needed || old(m.isEOM) ==> rdTotal == old(rdTotal) && viewLen(m) == old(viewLen(m)) && m.isEOM == old(m.isEOM)
 //@   loop 1 invariant buf_own: ref(m.buffer.buf) == old(ref(m.buffer.buf)) || fresh(m.buffer.buf)
+//@   loop 1 invariant io_strict: rdTotal == old(rdTotal) ==> viewLen(m) == old(viewLen(m))
 //@   ensures enough: err == nil ==> viewLen(m) >= needed
 //@   ensures view_prefix: [C14 C01] forall i :: 0 <= i && i < old(viewLen(m)) ==> viewAt(m, i) == old(viewAt(m, i))
 //@   ensures no_io_if_buffered: [C14] old(viewLen(m)) >= needed || old(m.isEOM) ==> rdTotal == old(rdTotal) && viewLen(m) == old(viewLen(m))
 //@   ensures buffered_ok: old(viewLen(m)) >= needed ==> err == nil
-//@   ensures grows_only: viewLen(m) >= old(viewLen(m))
+//@   ensures grows_only: viewLen(m) >= old(viewLen(m)) && rdTotal >= old(rdTotal) && openOKCount >= old(openOKCount)
+//@   ensures io_strict: [C14] rdTotal == old(rdTotal) ==> viewLen(m) == old(viewLen(m))
 //@   ensures proportional: [C13] viewLen(m) - old(viewLen(m)) <= rdTotal - old(rdTotal)
 //@   ensures eof_means_eom: [C02] err == io.EOF ==> m.isEOM && viewLen(m) < needed
 //@   ensures inv_kept: msgInv(m) && m.buffer == old(m.buffer) && m.stream == old(m.stream)
+//@   ensures buf_own: ref(m.buffer.buf) == old(ref(m.buffer.buf)) || fresh(m.buffer.buf)
+
+//@ pred encInv(m) = msgInv(m) && viewLen(m) <= 1048576
+//@ pred s64(x) = ite(x >= 9223372036854775808, x - 18446744073709551616, x)
+//@ view viewBE64(m, i) = viewAt(m, i)*72057594037927936 + viewAt(m, i+1)*281474976710656 + viewAt(m, i+2)*1099511627776 + viewAt(m, i+3)*4294967296 + viewAt(m, i+4)*16777216 + viewAt(m, i+5)*65536 + viewAt(m, i+6)*256 + viewAt(m, i+7)
+
+//@ func (*Message).FlushFrame
+//@   props C01 C09 C14
+//@   requires inv: encInv(m)
+//@   assigns @msgWrite
+//@   ensures wrong_dir: m.direction != CodingEncode ==> err != nil && wrCount == old(wrCount) && viewLen(m) == old(viewLen(m))
+//@   ensures flushed: [C01] err == nil ==> viewLen(m) == 0 && wrCount == old(wrCount) + 1 && wrLast[0] == ite(isEOM, 1, 0)
+//@   ensures plain_payload: [C01 C14] err == nil && !(strmEncrypting && strmKeyed) ==> len(wrLast) == 5 + old(viewLen(m)) && forall i :: 0 <= i && i < old(viewLen(m)) ==> wrLast[5+i] == old(viewAt(m, i))
+//@   ensures sealed_payload: [C09] err == nil && strmEncrypting && strmKeyed ==> sealCount == old(sealCount) + 1
+//@   ensures plain_noseal: [C09] !(strmEncrypting && strmKeyed) ==> sealCount == old(sealCount)
+//@   ensures kept_on_error: [C01] err != nil ==> viewLen(m) == old(viewLen(m))
+//@   ensures buf_own: ref(m.buffer.buf) == old(ref(m.buffer.buf)) || fresh(m.buffer.buf)
+//@   ensures at_most_one: wrCount <= old(wrCount) + 1
+//@   ensures inv_kept: encInv(m) && m.buffer == old(m.buffer) && m.stream == old(m.stream) && m.direction == old(m.direction)
+//@   ensures buf_own: ref(m.buffer.buf) == old(ref(m.buffer.buf)) || fresh(m.buffer.buf)
+
+//@ func (*Message).FinishMessage
+//@   props C01
+//@   requires inv: encInv(m)
+//@   assigns @msgWrite
+//@   ensures final: err == nil ==> viewLen(m) == 0 && wrCount == old(wrCount) + 1 && wrLast[0] == 1
+//@   ensures inv_kept: encInv(m)
+//@   ensures buf_own: ref(m.buffer.buf) == old(ref(m.buffer.buf)) || fresh(m.buffer.buf)
+
+//@ func (*Message).GetChar (m, ctx) (result, err)
+//@   props C14 C13 C01
+//@   requires inv: msgInv(m)
+//@   assigns @msgRead
+//@   ensures value: [C14] err == nil && old(viewLen(m)) >= 1 ==> result == old(viewAt(m, 0)) && viewLen(m) == old(viewLen(m)) - 1 && rdTotal == old(rdTotal)
+//@   ensures rest: [C14] err == nil && old(viewLen(m)) >= 1 ==> forall i :: 0 <= i && i < viewLen(m) ==> viewAt(m, i) == old(viewAt(m, i + 1))
+//@   ensures inv_kept: msgInv(m)
+//@   ensures buf_own: ref(m.buffer.buf) == old(ref(m.buffer.buf)) || fresh(m.buffer.buf)
+
+//@ func (*Message).GetInt (m, ctx) (result, err)
+//@   props C14 C13 C01
+//@   requires inv: msgInv(m)
+//@   assigns @msgRead
+//@   ensures value: [C14] err == nil && old(viewLen(m)) >= 8 ==> result == s64(old(viewBE64(m, 0))) && viewLen(m) == old(viewLen(m)) - 8 && rdTotal == old(rdTotal)
+//@   ensures rest: [C14] err == nil && old(viewLen(m)) >= 8 ==> forall i :: 0 <= i && i < viewLen(m) ==> viewAt(m, i) == old(viewAt(m, i + 8))
+//@   ensures consumes8: [C13] err == nil ==> viewLen(m) - old(viewLen(m)) + 8 <= rdTotal - old(rdTotal)
+//@   ensures at_most8: [C13] viewLen(m) >= old(viewLen(m)) - 8
+//@   ensures inv_kept: msgInv(m) && m.buffer == old(m.buffer) && m.stream == old(m.stream)
+//@   ensures buf_own: ref(m.buffer.buf) == old(ref(m.buffer.buf)) || fresh(m.buffer.buf)
+
+//@ func (*Message).GetInt32 (m, ctx) (result, err)
+//@   props C14 C13
+//@   requires inv: msgInv(m)
+//@   assigns @msgRead
+//@   ensures value: [C14] err == nil && old(viewLen(m)) >= 8 ==> result == int32(s64(old(viewBE64(m, 0)))) && viewLen(m) == old(viewLen(m)) - 8
+//@   ensures consumes8: [C13] err == nil ==> viewLen(m) - old(viewLen(m)) + 8 <= rdTotal - old(rdTotal)
+//@   ensures at_most8: [C13] viewLen(m) >= old(viewLen(m)) - 8
+//@   ensures inv_kept: msgInv(m) && m.buffer == old(m.buffer) && m.stream == old(m.stream)
+//@   ensures buf_own: ref(m.buffer.buf) == old(ref(m.buffer.buf)) || fresh(m.buffer.buf)
+
+//@ func (*Message).GetInt64 (m, ctx) (result, err)
+//@   props C14
+//@   requires inv: msgInv(m)
+//@   assigns @msgRead
+//@   ensures value: err == nil && old(viewLen(m)) >= 8 ==> result == s64(old(viewBE64(m, 0))) && viewLen(m) == old(viewLen(m)) - 8
+//@   ensures inv_kept: msgInv(m)
+//@   ensures buf_own: ref(m.buffer.buf) == old(ref(m.buffer.buf)) || fresh(m.buffer.buf)
+
+//@ func (*Message).GetUint32 (m, ctx) (result, err)
+//@   props C14
+//@   requires inv: msgInv(m)
+//@   assigns @msgRead
+//@   ensures value: err == nil && old(viewLen(m)) >= 8 ==> result == uint32(s64(old(viewBE64(m, 0)))) && viewLen(m) == old(viewLen(m)) - 8
+//@   ensures inv_kept: msgInv(m)
+//@   ensures buf_own: ref(m.buffer.buf) == old(ref(m.buffer.buf)) || fresh(m.buffer.buf)
+
+//@ func (*Message).PutChar
+//@   props C14 C01
+//@   requires inv: encInv(m)
+//@   assigns @msgWrite
+//@   ensures appended: [C14] err == nil && old(viewLen(m)) < 16384 ==> viewLen(m) == old(viewLen(m)) + 1 && viewAt(m, old(viewLen(m))) == c && wrCount == old(wrCount) && forall i :: 0 <= i && i < old(viewLen(m)) ==> viewAt(m, i) == old(viewAt(m, i))
+//@   ensures flushed_first: [C01] err == nil && old(viewLen(m)) >= 16384 ==> wrCount == old(wrCount) + 1 && wrLast[0] == 0 && viewLen(m) == 1 && viewAt(m, 0) == c
+//@   ensures inv_kept: encInv(m)
+//@   ensures buf_own: ref(m.buffer.buf) == old(ref(m.buffer.buf)) || fresh(m.buffer.buf)
+
+//@ func (*Message).PutInt
+//@   props C14 C01
+//@   requires inv: encInv(m)
+//@   assigns @msgWrite
+//@   let V0 = old(viewLen(m))
+//@   let base = ite(V0 + 8 > 16384, 0, V0)
+//@   ensures layout: [C14] err == nil ==> viewLen(m) == base + 8 && viewBE64(m, base) == value % 18446744073709551616
+//@   ensures bytes: [C14] err == nil ==> viewAt(m, base) == value / 72057594037927936 % 256 && viewAt(m, base + 7) == value % 256
+//@   ensures kept: [C14] err == nil && V0 + 8 <= 16384 ==> wrCount == old(wrCount) && forall i :: 0 <= i && i < V0 ==> viewAt(m, i) == old(viewAt(m, i))
+//@   ensures flushed_first: [C01] err == nil && V0 + 8 > 16384 ==> wrCount == old(wrCount) + 1 && wrLast[0] == 0
+//@   ensures inv_kept: encInv(m) && m.buffer == old(m.buffer) && m.stream == old(m.stream)
+//@   ensures buf_own: ref(m.buffer.buf) == old(ref(m.buffer.buf)) || fresh(m.buffer.buf)
+
+//@ func (*Message).PutInt32
+//@   props C14
+//@   requires inv: encInv(m)
+//@   assigns @msgWrite
+//@   let base = ite(old(viewLen(m)) + 8 > 16384, 0, old(viewLen(m)))
+//@   ensures layout: err == nil ==> viewLen(m) == base + 8 && viewBE64(m, base) == value % 18446744073709551616
+//@   ensures inv_kept: encInv(m) && m.buffer == old(m.buffer) && m.stream == old(m.stream)
+//@   ensures buf_own: ref(m.buffer.buf) == old(ref(m.buffer.buf)) || fresh(m.buffer.buf)
+
+//@ func (*Message).PutInt64
+//@   props C14
+//@   requires inv: encInv(m)
+//@   assigns @msgWrite
+//@   let base = ite(old(viewLen(m)) + 8 > 16384, 0, old(viewLen(m)))
+//@   ensures layout: err == nil ==> viewLen(m) == base + 8 && viewBE64(m, base) == value % 18446744073709551616
+//@   ensures inv_kept: encInv(m)
+//@   ensures buf_own: ref(m.buffer.buf) == old(ref(m.buffer.buf)) || fresh(m.buffer.buf)
+
+//@ func (*Message).PutUint32
+//@   props C14
+//@   requires inv: encInv(m)
+//@   assigns @msgWrite
+//@   let base = ite(old(viewLen(m)) + 8 > 16384, 0, old(viewLen(m)))
+//@   ensures layout: err == nil ==> viewLen(m) == base + 8 && viewBE64(m, base) == value
+//@   ensures inv_kept: encInv(m)
+//@   ensures buf_own: ref(m.buffer.buf) == old(ref(m.buffer.buf)) || fresh(m.buffer.buf)
+
+//@ func (*Message).PutBytes
+//@   props C01 C14
+//@   requires inv: encInv(m)
+//@   requires noalias: ref(data) >= 0 && (ref(data) != ref(m.buffer.buf) || ref(data) == 0)
+//@   assigns @msgWrite
+//@   loop 1 invariant inv: encInv(m) && m.buffer == old(m.buffer) && m.stream == old(m.stream) && m.direction == old(m.direction) && 0 <= offset && offset <= len(data) && wrCount >= old(wrCount)
+//@   loop 1 invariant progress: offset == 0 || viewLen(m) > 0
+//@   loop 1 invariant buf_own: ref(m.buffer.buf) == old(ref(m.buffer.buf)) || fresh(m.buffer.buf)
+//@   loop 1 decreases len(data) - offset
+//@   ensures wrong_dir: m.direction != CodingEncode ==> err != nil && wrCount == old(wrCount)
+//@   ensures empty: len(data) == 0 && m.direction == CodingEncode ==> err == nil && wrCount == old(wrCount) && viewLen(m) == old(viewLen(m))
+//@   ensures small_buffered: [C14] err == nil && len(data) > 0 && len(data) <= 1048576 && old(viewLen(m)) + len(data) <= 16384 ==> wrCount == old(wrCount) && viewLen(m) == old(viewLen(m)) + len(data) && (forall j :: old(viewLen(m)) <= j && j < viewLen(m) ==> viewAt(m, j) == old(data[j - viewLen(m)])) && (forall i :: 0 <= i && i < old(viewLen(m)) ==> viewAt(m, i) == old(viewAt(m, i)))
+//@   ensures small_flushed: [C01] err == nil && len(data) > 0 && len(data) <= 1048576 && old(viewLen(m)) + len(data) > 16384 ==> wrCount == old(wrCount) + 1 && viewLen(m) == len(data) && forall j :: 0 <= j && j < len(data) ==> viewAt(m, j) == old(data[j])
+//@   ensures inv_kept: encInv(m)
+//@   ensures buf_own: ref(m.buffer.buf) == old(ref(m.buffer.buf)) || fresh(m.buffer.buf)
+
+//@ func (*Message).GetBytes (m, ctx, numBytes) (result, err)
+//@   props C13 C14 C01
+//@   requires inv: msgInv(m)
+//@   assigns @msgRead
+//@   alloc 1 viewLen(m)
+//@   ensures value: [C14] err == nil && numBytes > 0 && old(viewLen(m)) >= numBytes ==> len(result) == numBytes && viewLen(m) == old(viewLen(m)) - numBytes && forall i :: 0 <= i && i < numBytes ==> result[i] == old(viewAt(m, i))
+//@   ensures nonpositive: numBytes <= 0 && m.direction == CodingDecode ==> err == nil && len(result) == 0 && rdTotal == old(rdTotal)
+//@   ensures proportional: [C13] err == nil && numBytes > 0 ==> len(result) == numBytes && numBytes <= old(viewLen(m)) + (rdTotal - old(rdTotal))
+//@   ensures inv_kept: msgInv(m)
+//@   ensures buf_own: ref(m.buffer.buf) == old(ref(m.buffer.buf)) || fresh(m.buffer.buf)
+
+//@ func (*Message).discard
+//@   props C13 C08
+//@   requires inv: msgInv(m)
+//@   assigns @msgRead
+//@   loop 1 invariant inv: msgInv(m) && m.buffer == old(m.buffer) && m.stream == old(m.stream) && n <= old(n) && rdTotal >= old(rdTotal)
+//@   loop 1 invariant buf_own: ref(m.buffer.buf) == old(ref(m.buffer.buf)) || fresh(m.buffer.buf)
+//@   loop 1 invariant idle: old(n) <= 0 ==> n == old(n) && viewLen(m) == old(viewLen(m)) && rdTotal == old(rdTotal)
+//@   loop 1 invariant accounted: old(n) > 0 ==> viewLen(m) + (old(n) - n) <= old(viewLen(m)) + (rdTotal - old(rdTotal))
+//@   loop 1 decreases n
+//@   ensures consumed: [C13 C08] err == nil && old(n) > 0 ==> viewLen(m) + old(n) <= old(viewLen(m)) + (rdTotal - old(rdTotal))
+//@   ensures noop: old(n) <= 0 ==> err == nil && viewLen(m) == old(viewLen(m)) && rdTotal == old(rdTotal)
+//@   ensures inv_kept: msgInv(m)
+//@   ensures buf_own: ref(m.buffer.buf) == old(ref(m.buffer.buf)) || fresh(m.buffer.buf)
+
+//@ pred firstNulAt(m, k) = 0 <= k && k < viewLen(m) && viewAt(m, k) == 0 && forall i :: 0 <= i && i < k ==> viewAt(m, i) != 0
+
+//@ func (*Message).GetString (m, ctx) (result, err)
+//@   props C13 C14 C08
+//@   requires inv: msgInv(m)
+//@   assigns @msgRead
+//@   alloc 1 viewLen(m)
+//@   let L = int32(s64(old(viewBE64(m, 0))))
+//@   loop 1 invariant inv: msgInv(m) && m.buffer == old(m.buffer) && m.stream == old(m.stream) && rdTotal >= old(rdTotal) && (result == nil || fresh(result)) && ref(result) >= 0
+//@   loop 1 invariant buf_own: ref(m.buffer.buf) == old(ref(m.buffer.buf)) || fresh(m.buffer.buf)
+//@   loop 1 invariant accounted: len(result) + viewLen(m) <= old(viewLen(m)) + (rdTotal - old(rdTotal))
+//@   loop 1 invariant copied_len: rdTotal == old(rdTotal) ==> viewLen(m) == old(viewLen(m)) - len(result)
+//@   ensures plain_consumed: [C14 C08] !old(strmEncrypting) && err == nil && rdTotal == old(rdTotal) ==> viewLen(m) == old(viewLen(m)) - len(result) - 1 || viewLen(m) == 0
+//@   ensures enc_consumed: [C14 C08 C13] old(strmEncrypting) && err == nil && old(viewLen(m)) >= 8 ==> L >= 0 && viewLen(m) - old(viewLen(m)) + 8 + L <= rdTotal - old(rdTotal)
+//@   ensures proportional: [C13] err == nil ==> len(result) + viewLen(m) <= old(viewLen(m)) + (rdTotal - old(rdTotal))
+//@   ensures inv_kept: msgInv(m)
+
+//@ func (*Message).GetStringWithMaxSize (m, ctx, maxSize) (result, err)
+//@   props C13 C14
+//@   requires inv: msgInv(m)
+//@   assigns @msgRead
+//@   alloc 1 maxSize
+//@   loop 1 invariant inv: msgInv(m) && m.buffer == old(m.buffer) && m.stream == old(m.stream) && rdTotal >= old(rdTotal) && (result == nil || fresh(result)) && ref(result) >= 0
+//@   loop 1 invariant buf_own: ref(m.buffer.buf) == old(ref(m.buffer.buf)) || fresh(m.buffer.buf)
+//@   loop 1 invariant capped: 0 <= bytesRead && bytesRead <= maxSize && len(result) <= bytesRead
+//@   loop 1 invariant consumed: rdTotal == old(rdTotal) ==> viewLen(m) == old(viewLen(m)) - bytesRead
+//@   loop 1 decreases maxSize - bytesRead
+//@   ensures nonpositive_cap: maxSize <= 0 ==> err == nil && len(result) == 0 && viewLen(m) == old(viewLen(m)) && rdTotal == old(rdTotal)
+//@   ensures cap_result: [C13] len(result) <= max(maxSize, 0)
+//@   ensures cap_consumed_plain: [C13] !old(strmEncrypting) && rdTotal == old(rdTotal) ==> old(viewLen(m)) - viewLen(m) <= max(maxSize, 0)
+//@   ensures cap_consumed_enc: [C13] old(strmEncrypting) && rdTotal == old(rdTotal) && maxSize > 0 ==> old(viewLen(m)) - viewLen(m) <= maxSize + 8
+//@   ensures inv_kept: msgInv(m)
+//@   ensures buf_own: ref(m.buffer.buf) == old(ref(m.buffer.buf)) || fresh(m.buffer.buf)
+
+//@ func (*Message).SkipString
+//@   props C13 C08
+//@   requires inv: msgInv(m)
+//@   assigns @msgRead
+//@   loop 1 invariant inv: msgInv(m) && m.buffer == old(m.buffer) && m.stream == old(m.stream) && rdTotal >= old(rdTotal)
+//@   loop 1 invariant buf_own: ref(m.buffer.buf) == old(ref(m.buffer.buf)) || fresh(m.buffer.buf)
+//@   ensures inv_kept: msgInv(m)
+//@   ensures buf_own: ref(m.buffer.buf) == old(ref(m.buffer.buf)) || fresh(m.buffer.buf)
+
+//@ func (*Message).GetRemainingBytes (m, ctx) (result, err)
+//@   props C13 C01
+//@   requires inv: msgInv(m)
+//@   assigns @msgRead
+//@   alloc 1 viewLen(m)
+//@   loop 1 invariant inv: msgInv(m) && m.buffer == old(m.buffer) && m.stream == old(m.stream) && rdTotal >= old(rdTotal) && viewLen(m) >= old(viewLen(m))
+//@   loop 1 invariant buf_own: ref(m.buffer.buf) == old(ref(m.buffer.buf)) || fresh(m.buffer.buf)
+//@   loop 1 invariant proportional: viewLen(m) - old(viewLen(m)) <= rdTotal - old(rdTotal)
+//@   ensures drained: err == nil ==> viewLen(m) == 0 && m.finished && m.isEOM
+//@   ensures proportional: [C13] err == nil ==> len(result) <= old(viewLen(m)) + (rdTotal - old(rdTotal))
+//@   ensures no_partial: [C02] err != nil ==> result == nil
+//@   ensures inv_kept: msgInv(m)
+
+//@ func (*Message).PutStringBytes
+//@   props C01 C14 C09
+//@   requires inv: encInv(m)
+//@   requires noalias: ref(b) >= 0 && (ref(b) != ref(m.buffer.buf) || ref(b) == 0)
+//@   assigns @msgWrite
+//@   ensures inv_kept: [C01] encInv(m)
+//@   ensures buf_own: ref(m.buffer.buf) == old(ref(m.buffer.buf)) || fresh(m.buffer.buf)
+
+//@ func (*Message).PutString
+//@   props C01 C14 C09
+//@   requires inv: encInv(m)
+//@   assigns @msgWrite
+//@   ensures inv_kept: [C01] encInv(m)
+//@   ensures buf_own: ref(m.buffer.buf) == old(ref(m.buffer.buf)) || fresh(m.buffer.buf)
